@@ -79,7 +79,8 @@ type polled struct {
 	pollIdx  int
 	explicit kgo.AckStatus // first terminal status the application set
 	renewed  bool
-	issuedAt int // logical time the (first) ack of this record was issued by the application; 0 = not yet
+	maybe    kgo.AckStatus // MarkAcks() ran while a renew of this record was or was not yet confirmed: it may or may not have taken this status
+	issuedAt int           // logical time the (first) ack of this record was issued by the application; 0 = not yet
 }
 
 type member struct {
@@ -161,6 +162,9 @@ func (st *state) allowedTypes(m *member, off int64) map[int8]bool {
 			continue
 		}
 		n++
+		if p.maybe != 0 {
+			al[int8(p.maybe)] = true
+		}
 		switch {
 		case p.explicit != 0:
 			al[int8(p.explicit)] = true
@@ -514,6 +518,11 @@ func (a *app) markAll(s kgo.AckStatus) {
 	a.st.mu.Lock()
 	now := a.st.tick()
 	for _, p := range a.m.records {
+		if p.pollIdx == a.m.polls && p.explicit == 0 && p.renewed {
+			// A confirmed renew puts the record back to "undecided", which
+			// MarkAcks() then marks; an unconfirmed one is left alone.
+			p.maybe = s
+		}
 		if p.pollIdx == a.m.polls && p.explicit == 0 && !p.renewed {
 			p.explicit = s
 			if p.issuedAt == 0 {
